@@ -839,7 +839,9 @@ class StubsStringGenerator:
             types = []
             for literal_type in type_data["literals"]:
                 if isinstance(literal_type, str):
-                    types.append(f'"{literal_type}"')
+                    # Backslashes and quotes have to be escaped, otherwise the string literal is closed too early
+                    escaped_literal = literal_type.replace("\\", "\\\\").replace('"', '\\"')
+                    types.append(f'"{escaped_literal}"')
                 elif isinstance(literal_type, bool):
                     if literal_type:
                         types.append("true")
